@@ -938,3 +938,40 @@ def reentry_rule(ck, m):
               'hundred times in one command line recurses once per repetition and exhausts the stack of the handler thread (the process aborts), '
               'before any authentication' % (missing or '(wrapper word not identified)', ' '.join((missing or ['rp'])[:1]) + ' 1 '), b.loc(bi))
     ck.floor('C10.e', len(sites), 1, 're-entry sites of the request entry reachable from the dispatcher')
+    # the guard tests the text as the arm received it; the re-entered function must hand that text to the parser without a
+    # normalisation the guard did not apply (a `trim()` at the entry turns " rp 1 …", which the guard lets through and the
+    # parser used to refuse as an empty command, into another wrapper)
+    from nl.locks import backward_slice
+    IDENT = ('std::string::String::from', 'std::convert::From::from', 'std::ops::Deref::deref', 'std::string::ToString::to_string',
+             'std::string::String::as_str', 'std::borrow::Borrow::borrow', 'std::convert::AsRef::as_ref', 'std::clone::Clone::clone',
+             'std::str::trim_end', 'std::str::trim_end_matches', 'std::borrow::ToOwned::to_owned', 'std::str::to_owned', 'std::str::to_string')
+    guard_calls = set()
+    for b, bi in sites:
+        for x, tx in b.calls():
+            if callee_decl(tx) in ('std::str::starts_with',) and b.dominates(x, bi):
+                guard_calls |= {callee_decl(b.term(c)) for c in backward_slice(b, tx['args'][0])[0]}
+    for name in sorted(pr):
+        eb = P.bodies.get(name)
+        if eb is None:
+            continue
+        for x, tx in eb.calls():
+            if not callee(tx).endswith('Request>::parse'):
+                continue
+            extra = []
+            for c in sorted(backward_slice(eb, tx['args'][0])[0]):
+                tc = eb.term(c)
+                d = callee_decl(tc)
+                if d in IDENT or is_log(tc) or not d.startswith('std::str::') and not d.startswith('std::string::String::'):
+                    continue
+                if d == 'std::str::trim_matches' or d == 'std::str::trim_start_matches':
+                    pats = [core.const_val(r) for a_ in tc['args'][1:] for r in origins(eb, a_) if r[0] == 'const']
+                    if pats and all(p_ in (10, '\n', 13, '\r') or (isinstance(p_, str) and set(p_) <= set('\r\n')) for p_ in pats):
+                        continue      # line ends only: arguments carry none (C09.e)
+                if d in guard_calls:
+                    continue
+                extra.append(d.split('::')[-1])
+            ck.ob('C10.e', short(eb.id), 're-entry:text-parsed-as-guarded', not extra,
+                  'the request entry hands its text to the parser as the wrapper guard saw it (line ends aside)' if not extra else
+                  'the request entry applies %s to its text before parsing, the nested-wrapper guard tests the text without it: a wrapped '
+                  '" rp 1 …" (leading blank) passes the guard and is parsed as another wrapper on re-entry — the client again chooses the '
+                  'recursion depth' % extra, eb.loc(x))
